@@ -37,14 +37,37 @@ DFKNTsize(int32 number_type)
 #define GRP_BASE(il, k, yd)                                                                          \
     ((il) == MFGR_INTERLACE_PIXEL ? (long)(k)*GRP_CS : (il) == MFGR_INTERLACE_LINE ? (long)(k)*GRP_XD * GRP_CS : GRP_CY(k, yd) * GRP_XD * GRP_CS)
 #define GRP_STEP(il) ((il) == MFGR_INTERLACE_COMPONENT ? (long)GRP_XD * GRP_CS : (long)GRP_XD * GRP_NC * GRP_CS)
-#define GRP_CUR(k, row)                                                                              \
-    (in_comp_ptr[k] == (const uint8 *)inbuf + (GRP_BASE(inil, k, dims[1]) + (long)(row)*GRP_STEP(inil)) &&                \
-     out_comp_ptr[k] == (uint8 *)outbuf + (GRP_BASE(outil, k, dims[1]) + (long)(row)*GRP_STEP(outil)))
-#define GRP_ROW_INV(row)                                                                             \
-    (0 <= (row) && (row) <= dims[1] && GRP_CUR(0, row) && (GRP_NC < 2 || GRP_CUR(GRP_NC < 2 ? 0 : 1, row)) &&                \
-     (GRP_NC < 3 || GRP_CUR(GRP_NC < 3 ? 0 : 2, row)) &&                                                                  \
-     (g_y < (row) ==> ((const uint8 *)outbuf)[GRP_IDX(outil, g_x, g_y, g_c, dims[1]) * GRP_CS + g_b] ==                   \
-                          ((const uint8 *)inbuf)[GRP_IDX(inil, g_x, g_y, g_c, dims[1]) * GRP_CS + g_b]))
+/* bytes a cursor moves per pixel, and the extra move at the end of a row (the code's *_pixel_add, *_line_add) */
+#define GRP_PADD(il) ((il) == MFGR_INTERLACE_PIXEL ? (long)GRP_NC * GRP_CS : (long)GRP_CS)
+#define GRP_LADD(il) ((il) == MFGR_INTERLACE_LINE ? (long)(GRP_NC - 1) * GRP_XD * GRP_CS : 0L)
+#define GRP_AT(k, off_in, off_out)                                                                   \
+    (in_comp_ptr[k] == (const uint8 *)inbuf + (GRP_BASE(inil, k, dims[1]) + (off_in)) &&                                  \
+     out_comp_ptr[k] == (uint8 *)outbuf + (GRP_BASE(outil, k, dims[1]) + (off_out)))
+#define GRP_K1 (GRP_NC < 2 ? 0 : 1)
+#define GRP_K2 (GRP_NC < 3 ? 0 : 2)
+#define GRP_ALLK(M) (M(0) && (GRP_NC < 2 || M(GRP_K1)) && (GRP_NC < 3 || M(GRP_K2)))
+/* the property clause for the ghost component */
+#define GRP_EQ                                                                                       \
+    (((const uint8 *)outbuf)[GRP_IDX(outil, g_x, g_y, g_c, dims[1]) * GRP_CS + g_b] ==                                    \
+     ((const uint8 *)inbuf)[GRP_IDX(inil, g_x, g_y, g_c, dims[1]) * GRP_CS + g_b])
+#define GRP_TOTAL ((__CPROVER_size_t)dims[1] * (GRP_XD * GRP_NC * GRP_CS))
+/* loop 7 (rows) */
+#define GRP_AT7(kk) GRP_AT(kk, (long)i *GRP_STEP(inil), (long)i *GRP_STEP(outil))
+#define GRP_INV7 (0 <= i && i <= dims[1] && GRP_ALLK(GRP_AT7) && (g_y < i ==> GRP_EQ))
+/* loop 8 (pixels of row i) */
+#define GRP_AT8(kk) GRP_AT(kk, (long)i *GRP_STEP(inil) + (long)j * GRP_PADD(inil), (long)i * GRP_STEP(outil) + (long)j * GRP_PADD(outil))
+#define GRP_INV8 (0 <= j && j <= GRP_XD && GRP_ALLK(GRP_AT8) && ((g_y < i || (g_y == i && g_x < j)) ==> GRP_EQ))
+/* loop 9 (components of pixel (j,i)): cursors below k have already moved on */
+#define GRP_AT9(kk)                                                                                  \
+    GRP_AT(kk, (long)i *GRP_STEP(inil) + (long)(j + ((kk) < k ? 1 : 0)) * GRP_PADD(inil),                                 \
+           (long)i * GRP_STEP(outil) + (long)(j + ((kk) < k ? 1 : 0)) * GRP_PADD(outil))
+#define GRP_INV9                                                                                     \
+    (0 <= k && k <= GRP_NC && GRP_ALLK(GRP_AT9) && ((g_y < i || (g_y == i && (g_x < j || (g_x == j && g_c < k)))) ==> GRP_EQ))
+/* loop 10 (end-of-row wrap) */
+#define GRP_AT10(kk)                                                                                 \
+    GRP_AT(kk, (long)i *GRP_STEP(inil) + (long)GRP_XD * GRP_PADD(inil) + ((kk) < k ? GRP_LADD(inil) : 0L),                \
+           (long)i * GRP_STEP(outil) + (long)GRP_XD * GRP_PADD(outil) + ((kk) < k ? GRP_LADD(outil) : 0L))
+#define GRP_INV10 (0 <= k && k <= GRP_NC && GRP_ALLK(GRP_AT10) && (g_y <= i ==> GRP_EQ))
 int32 g_x, g_y, g_c, g_b;
 
 #include "mfgr.c"
